@@ -92,16 +92,16 @@ Proof.
   { intros x y z H _. inversion H; subst. exists a. split; [exact Ha|]. split; [reflexivity|left; split; reflexivity]. }
   destruct (a_children a); [|intros H; eapply Q; [exact H|reflexivity]].
   destruct (a_st a) eqn:Est; try (intros H; eapply Q; [exact H|reflexivity]).
-  destruct (handle roles s u TT 0%nat snd) as [[s1 o1] p1] eqn:E1.
-  destruct (obj_handle _ _ _ _ _ _ _ _ _ Ha E1) as (a1 & G1 & T1 & I1 & S1). unfold bind at 1. destruct p1.
+  destruct (provide s (a_tok a)) as [s0 inst] eqn:Ep.
+  assert (G0 : get s0 u = Some a) by (unfold provide in Ep; inversion Ep; subst; exact Ha).
+  destruct (handle roles s0 u TT 0%nat snd) as [[s1 o1] p1] eqn:E1.
+  destruct (obj_handle _ _ _ _ _ _ _ _ _ G0 E1) as (a1 & G1 & T1 & I1 & S1). unfold bind at 1. destruct p1.
   - intros H; inversion H; subst. exists a1. split; [exact G1|]. split; [exact T1|]. left. split; congruence.
   - destruct (handle roles s1 u TTS 0%nat snd) as [[s2 o2] p2] eqn:E2.
     destruct (obj_handle _ _ _ _ _ _ _ _ _ G1 E2) as (a2 & G2 & T2 & I2 & S2). unfold bind. destruct p2.
     + intros H; inversion H; subst. exists a2. split; [exact G2|]. split; [congruence|]. left. split; congruence.
-    + destruct (provide s2 (a_tok a)) as [s3 inst] eqn:Ep.
-      assert (G3 : get s3 u = Some a2) by (unfold provide in Ep; inversion Ep; subst; exact G2).
-      set (s4 := upd_actor s3 u (fun b => w_st Alive (w_inst inst b))).
-      assert (G4 : get s4 u = Some (w_st Alive (w_inst inst a2))) by (exact (get_upd_actor_same s3 u (fun b => w_st Alive (w_inst inst b)) a2 G3)).
+    + set (s4 := upd_actor s2 u (fun b => w_st Alive (w_inst inst b))).
+      assert (G4 : get s4 u = Some (w_st Alive (w_inst inst a2))) by (exact (get_upd_actor_same s2 u (fun b => w_st Alive (w_inst inst b)) a2 G2)).
       destruct (obj_of _ _ u _ (keep_deliver_sys s4 (a_tok a) (a_tok a) SResume) (id_deliver_sys s4 (a_tok a) (a_tok a) SResume) G4) as (a5 & G5 & T5 & I5 & S5).
       destruct (start_instance roles (deliver_sys s4 (a_tok a) (a_tok a) SResume) u (a_tok a) (a_parent a)) as [[s9 o9] p9] eqn:E9.
       destruct (obj_start_instance _ _ _ _ _ _ _ _ G5 E9) as (a9 & G9 & T9 & I9 & S9).
